@@ -20,7 +20,7 @@ func init() {
 	register(&Prop{
 		ID:       "C05",
 		Category: "model_checking",
-		Rule: "streams: the short corpus, end-of-block at every bit offset, a stored block last, long encoder-made streams, streams whose last block ends 0..3 bytes before the decoder's 64 KiB output window is full, and the whole valid-stream grammar of C02 (sequence length 1) with an 8-byte suffix through bufio 16/4096/65536; gzip and zlib containers incl. two members read one by one; " +
+		Rule: "streams: the short corpus, end-of-block at every bit offset, a stored block last, long encoder-made streams, streams that end just before, exactly at, or a few compressed bytes after the point where the decoder's 64 KiB output window is full, and the whole valid-stream grammar of C02 (sequence length 1) with an 8-byte suffix through bufio 16/4096/65536; gzip and zlib containers incl. two members read one by one; " +
 			"x suffix in {none, 1 byte, 8 bytes, 5000 bytes, a valid next block header} x source kind in {*bufio.Reader of 13 sizes given to NewReader, the same given to Reset, bytes.Reader, bytes.Buffer, strings.Reader, custom io.ByteReader} x Read policy {1, 4096, 1 MiB}; " +
 			"oracle: after io.EOF the bytes still readable from the source are exactly the suffix; non-trivial = the suffix is not empty",
 		Assumptions: []string{"the bytes left in the source are observed by draining the very object the Reader was given"},
@@ -101,13 +101,16 @@ func c05Harness(cfg *Cfg) func(x *mc.Exec) {
 		family := x.Choose(4, "family")
 		if family == 3 {
 			// the stream ends exactly at / just around the point where the decoder's 64 KiB output window is full
-			j := x.Choose(4, "bytes-before-fill")
+			// stored prefix ending a bytes before the fill point, then a FINAL fixed block of nl literals and m
+			// matches of length 258: the stream ends just before, exactly at, or a few compressed bytes after the
+			// pause the decoder makes when its output window is full
+			a := []int{0, 1, 2, 3, 100, 300}[x.Choose(6, "prefix-ends-before-fill")]
 			nl := x.Choose(3, "final-literals")
-			withMatch := x.Choose(2, "final-match")
+			m := x.Choose(3, "final-matches")
 			sk := []srcKind{{"bufio16", 16, false}, {"bufio4096", 4096, true}, {"bufio65536", 65536, false}}[x.Choose(3, "source")]
 			pol := []env.ReadPolicy{env.PolicyAll, env.Policy4096, env.Policy7}[x.Choose(3, "read-policy")]
 			suf := suffixes[1+x.Choose(len(suffixes)-1, "suffix")]
-			pre := g.wfPrefix(65536 - j - nl - withMatch*258)
+			pre := g.wfPrefix(65536 - a)
 			w := &synth.BitWriter{}
 			for h := pre; len(h) > 0; {
 				n := len(h)
@@ -121,10 +124,11 @@ func c05Harness(cfg *Cfg) func(x *mc.Exec) {
 			for i := 0; i < nl; i++ {
 				syms = append(syms, synth.Sym{Kind: synth.SymLit, Lit: 'a' + i})
 			}
-			if withMatch == 1 {
+			for i := 0; i < m; i++ {
 				syms = append(syms, synth.Sym{Kind: synth.SymMatch, Len: 258, Dist: 17})
 			}
 			synth.BuildTo(w, synth.Block{Final: true, Type: 1, Syms: syms})
+			total := 65536 - a + nl + 258*m
 			stream := w.Bytes()
 			x.NonTrivial()
 			data := append(append([]byte{}, stream...), suf.stream...)
@@ -137,12 +141,12 @@ func c05Harness(cfg *Cfg) func(x *mc.Exec) {
 			}
 			o := drainReader(r, pol)
 			x.Note(o.FP)
-			desc := fmt.Sprintf("flate stream of %d output bytes ending %d bytes before the window fills (final block: %d literals, match=%d) + suffix %s via %s (reset=%v) policy=%s", 65536-j, j, nl, withMatch, suf.name, sk.name, sk.reset, pol.Name)
+			desc := fmt.Sprintf("flate stream of %d output bytes (output window fills at 65536; final block: %d literals, %d matches of 258) + suffix %s via %s (reset=%v) policy=%s", total, nl, m, suf.name, sk.name, sk.reset, pol.Name)
 			if cls, msg := o.basicFaults(); cls != "" {
 				x.Fail("C05 "+cls, "%s: %s", desc, msg)
 				return
 			}
-			if o.Err != io.EOF || len(o.Out) != 65536-j {
+			if o.Err != io.EOF || len(o.Out) != total {
 				x.Fail(fmt.Sprintf("C05 not-eof flate source=%s ctor=%s", sk.class(), ctorName(sk.reset)), "%s: ended with %v after %d bytes", desc, o.Err, len(o.Out))
 				return
 			}
